@@ -45,6 +45,7 @@ class FixedOs(object):
 
 nfc.tag.tt3_sony.os = FixedOs
 nfc.tag.tt2_nxp.os = FixedOs
+S.install_clock()          # simulated time for the tag modules (advanced by the fake frontend)
 
 MSG = bytes.fromhex('d1010f5402656e') + b'hello, world'          # 19 byte NDEF text record
 MSG2 = bytes.fromhex('d101255402656e') + b'a longer text that needs more blocks.'  # 41 byte
@@ -84,7 +85,7 @@ def raise_site(e):
 def observe(fn):
     out = io.StringIO()
     try:
-        with contextlib.redirect_stdout(out):
+        with contextlib.redirect_stdout(out), S.CLOCK:
             v = fn()
     except nfc.tag.TagCommandError as e:
         return ('tce', type(e).__name__, e.errno)
@@ -102,9 +103,9 @@ class Scn(object):
     """name; make() -> World; prep(world) fault-free preparation; op(world) -> value;
     fail = values documented for failure; method = (public method name for the skeleton lookup)"""
 
-    def __init__(self, name, ttype, make, op, method, prep=None, fail=(None, False), tier='quick', lists=False):
+    def __init__(self, name, ttype, make, op, method, prep=None, fail=(None, False), tier='quick', lists=False, slow=0.05):
         self.name, self.ttype, self.make, self.op, self.method = name, ttype, make, op, method
-        self.prep, self.fail, self.tier, self.lists = prep, fail, tier, lists
+        self.prep, self.fail, self.tier, self.lists, self.slow = prep, fail, tier, lists, slow
 
 
 def read_ndef(w):
@@ -163,9 +164,9 @@ def lite_world(lites, ndef=None, formatted=True, key=None):
     return make
 
 
-def t4_world(fwi, ndef=None, fsci=8, cmiu=253, **kw):
+def t4_world(fwi, ndef=None, fsci=8, cmiu=253, wtx=(), **kw):
     def make():
-        return S.T4World(S.t4_card(MSG if ndef is None else ndef, **kw), fwi=fwi, fsci=fsci, cmiu=cmiu)
+        return S.T4World(S.t4_card(MSG if ndef is None else ndef, **kw), fwi=fwi, fsci=fsci, cmiu=cmiu, wtx=wtx)
     return make
 
 
@@ -293,6 +294,11 @@ def scenarios():
     add('felica-std/request_response', 'tt3', fs, lambda w: w.tag.request_response(), 'request_response')
     add('felica-std/search_service_code', 'tt3', fs, lambda w: w.tag.search_service_code(1), 'search_service_code')
     add('felica-std/request_system_code', 'tt3', fs, lambda w: w.tag.request_system_code(), 'request_system_code')
+    def fs_odd():
+        w = S.FelicaStandardWorld(S.t3_blocks(8, MSG2))
+        w.sim.listing = [(0x0000, 0xFFFE), (0x0041,), (0x000B,)]      # a service that is neither random, cyclic nor purse
+        return w
+    add('felica-std/dump-unknown-service-type', 'tt3', fs_odd, lambda w: w.tag.dump(), 'dump', lists=True)
     add('felica-std/request_service', 'tt3', fs, lambda w: w.tag.request_service([nfc.tag.tt3.ServiceCode(0, 11)]),
         'request_service')
     # ---- FeliCa Lite / Lite-S
@@ -349,6 +355,23 @@ def scenarios():
             if fwi == 8:
                 add(nm + '/dump', 'tt4', wc, lambda w: w.tag.dump(), 'dump', lists=True,
                     tier='quick' if nblk in (2, 7) else 'thorough')
+    # ---- slow cards on the simulated clock: every answer takes 95 % of the granted time, a timeout all of it.
+    #      FeliCa PMm time bytes FFh (0.3 s for one block, 2.5 s for 15 blocks), Type 4 with FWI 14 (4.9 s per block) and with
+    #      S(WTX) requests (WTXM up to 59): single commands take more than 1 s / 10 s of simulated time
+    s3 = t3_world(20, ndef=longmsg(250), nbr=15, nbw=12)
+    add('slow/t3/ndef-read', 'tt3', s3, read_ndef, 'ndef', slow=0.95)
+    add('slow/t3/ndef-write', 'tt3', s3, write_op(longmsg(240)), 'NDEF.octets=', prep=prep_ndef, slow=0.95)
+    add('slow/t3/is_present', 'tt3', s3, lambda w: w.tag.is_present, 'is_present', slow=0.95)
+    add('slow/t3/dump', 'tt3', t3_world(6, nbr=4, nbw=2), lambda w: w.tag.dump(), 'dump', lists=True, slow=0.95)
+    add('slow/lites/ndef-read', 'tt3', lite_world(True), read_ndef, 'ndef', slow=0.95)
+    add('slow/topaz512/ndef-read', 'tt1', t1_world(True, 'Topaz512'), read_ndef, 'ndef', slow=0.95)
+    add('slow/t2/ndef-read', 'tt2', t2_generic(npages=36), read_ndef, 'ndef', slow=0.95)
+    add('slow/t4/fwi14/ndef-read', 'tt4', t4_world(14), read_ndef, 'ndef', slow=0.95)
+    add('slow/t4/fwi11/ndef-read', 'tt4', t4_world(11, ndef=longmsg(100), cmiu=32, mle=94), read_ndef, 'ndef', slow=0.95)
+    wx = ((), (3,), (), (59,), (2, 1), (), (59, 59))
+    add('slow/t4/wtx/fwi8/ndef-read', 'tt4', t4_world(8, wtx=wx), read_ndef, 'ndef', slow=0.95)
+    add('slow/t4/wtx/fwi14/ndef-write', 'tt4', t4_world(14, wtx=wx), write_op(longmsg(100)), 'NDEF.octets=', prep=prep_ndef,
+        slow=0.95)
     for fsci in (0, 2):
         wf = t4_world(8, ndef=longmsg(60), fsci=fsci, cmiu=13, mle=40, mlc=40, mfs=256)
         nm = 't4/fsci%d' % fsci
@@ -358,18 +381,28 @@ def scenarios():
 
 
 # ------------------------------------------------------------------------------ one run
-def run(scn, plan):
+LINK_DOWN = 10 ** 6
+
+
+def run(scn, plan, history=0, plan2=None):
+    """history = k: before the observed operation the SAME tag object goes through k uses of the operation while the
+    link is down (every exchange fails, nothing reaches the tag: 1st timeouts, 2nd transmission errors, 3rd protocol errors)"""
     w = scn.make()
+    w.clf.slow = scn.slow
     if scn.prep:
-        with contextlib.redirect_stdout(io.StringIO()):
+        with contextlib.redirect_stdout(io.StringIO()), S.CLOCK:
             scn.prep(w)
+    for h in range(history):
+        w.clf.arm((0, 'TXP'[h % 3], LINK_DOWN, 'req'))
+        observe(lambda: scn.op(w))
+        w.clf.plan = None
     w0 = len(w.writes())
     e0 = len(w.apdus()) if hasattr(w, 'apdus') else 0
-    w.clf.arm(plan)
+    w.clf.arm(plan, plan2)
     obs = observe(lambda: scn.op(w))
-    w.clf.plan = None
+    w.clf.plan = w.clf.plan2 = None
     return dict(obs=obs, trace=list(w.clf.trace), delivered=list(w.clf.delivered), calls=list(w.clf.calls),
-                writes=w.writes()[w0:], memory=w.memory(), world=w,
+                writes=w.writes()[w0:], memory=w.memory(), world=w, longest=w.clf.longest,
                 apdus=(w.apdus()[e0:] if hasattr(w, 'apdus') else None))
 
 
@@ -430,7 +463,7 @@ class Sweep(object):
         return burst < b[1]
 
     # -------------------------------------------------------------- the monitor
-    def check(self, scn, base, bud, plan, r):
+    def check(self, scn, base, bud, plan, r, history=0):
         ck = self.ck
         pos, kind, burst, mode = plan
         cid = class_id(base['world'].tag)
@@ -438,13 +471,16 @@ class Sweep(object):
         case = {'scenario': scn.name, 'class': cid, 'method': scn.method, 'plan': list(plan), 'observed': list(map(str, o)),
                 'fault_free': str(base['obs'])[:200], 'command': base['trace'][pos][0].hex(),
                 'wire': ['%s:%s' % (t[0].hex()[:24], t[1]) for t in r['trace'][max(0, pos - 1):pos + burst + 3]]}
+        if history:
+            case['history'] = history
+            case['note'] = 'the same tag object was used %d time(s) before while the link was down' % history
         kname = S.KIND_NAME[kind]
 
         def viol(what_key, text, site=None):
             if site is not None:          # crash-type exceptions are identified by the raising function
                 ck.violation('%s@%s' % (what_key, site), text, case)
             elif what_key == 'not-survived':
-                ck.violation('%s:%s:%s' % (what_key, cid, scn.method), text, case)
+                ck.violation('%s:%s:%s%s' % (what_key, cid, scn.method, ':after-failed-use' if history else ''), text, case)
             else:
                 ck.violation('%s:%s:%s:%s' % (what_key, cid, scn.method, kname), text, case)
         # (1) never a raw CommunicationError or an unrelated exception
@@ -558,6 +594,82 @@ class Sweep(object):
             else:
                 m += 1
         ck.cov['skeleton_membership_checks'] = m
+
+    # -------------------------------------------------------------- histories on one long-lived tag object
+    def history_sweep(self, scn, base, quick, depths=(1,)):
+        """the operation was used before on the SAME object while the link was down (it failed for good); afterwards the
+        documented retry behaviour must hold exactly as on a fresh object: a single transient error at every position"""
+        ck = self.ck
+        cid = class_id(base['world'].tag)
+        for h in depths:
+            bh = run(scn, None, history=h)
+            if bh['obs'] != base['obs'] or bh['memory'] != base['memory']:
+                ck.violation('not-survived:%s:%s:after-failed-use' % (cid, scn.method),
+                             'after %d use(s) of the operation with the link down the fault-free operation on the same tag '
+                             'object differs from the one on a fresh object' % h,
+                             {'scenario': scn.name, 'class': cid, 'method': scn.method, 'plan': None, 'history': h,
+                              'observed': list(map(str, bh['obs'])), 'fault_free': str(base['obs'])[:200]})
+                continue
+            bud = self.budget_table(scn, bh)
+            for pos in self.positions(scn, bh, quick):
+                passive = scn.ttype == 'tt2' and pos > 0 and bh['trace'][pos - 1][0] == b'\xC2\xFF'
+                for kind in ('TX' if scn.ttype == 'tt4' else 'TXP'):
+                    if passive and kind == 'T':
+                        continue
+                    for mode in ('req', 'rsp'):
+                        plan = (pos, kind, 1, mode)
+                        r = run(scn, plan, history=h)
+                        self.check(scn, bh, bud, plan, r, history=h)
+                        ck.case((scn.name, plan, 'history', h, VAR['round']), True)
+                        ck.count('history%d/%s/%s' % (h, scn.ttype, r['obs'][0] if r['obs'] != bh['obs'] else 'same'))
+
+    # -------------------------------------------------------------- two bursts in one operation
+    def two_bursts(self, scn, base, quick, step=1):
+        """two bursts, each within the budget of the command (block) it hits, in different commands of one operation:
+        every command has its own budget, the result must be the fault-free one"""
+        ck = self.ck
+        cid = class_id(base['world'].tag)
+        bud = self.budget_table(scn, base)
+        for pos in self.positions(scn, base, quick)[::step]:
+            for kind in 'TX':
+                b = bud.get(pos)
+                if b is None:
+                    continue
+                burst = min(b[1], 4) if b[0] == 'isodep' else b[1] - 1
+                plan = (pos, kind, burst, 'req')
+                if burst < 1 or not self.strict(scn, base, bud, plan):
+                    continue
+                r1 = run(scn, plan)
+                if r1['obs'] != base['obs']:
+                    continue                   # reported by the single-burst sweep
+                bud1 = self.budget_table(scn, r1)
+                cands = [j for j in range(pos + burst + 3, len(r1['trace'])) if r1['trace'][j][1] == 'A'
+                         and not (scn.ttype == 'tt2' and r1['trace'][j - 1][0] == b'\xC2\xFF')
+                         # the answer to an S(WTX) request is not a command of the operation (its recovery is C12's subject)
+                         and not (scn.ttype == 'tt4' and r1['trace'][j][0][0] & 0xC0 == 0xC0)]
+                for j in sorted(set(cands[:1] + cands[-1:])):
+                    b2 = bud1.get(j)
+                    if b2 is None:
+                        continue
+                    burst2 = min(b2[1], 4) if b2[0] == 'isodep' else b2[1] - 1
+                    if burst2 < 1:
+                        continue
+                    plan2 = (j, kind, burst2, 'req')
+                    r2 = run(scn, plan, plan2=plan2)
+                    ck.case((scn.name, plan, plan2, VAR['round']), True)
+                    self.nstrict += 1
+                    o = r2['obs']
+                    case = {'scenario': scn.name, 'class': cid, 'method': scn.method, 'plan': list(plan), 'plan2': list(plan2),
+                            'observed': list(map(str, o)), 'fault_free': str(base['obs'])[:200],
+                            'wire': ['%s:%s' % (t[0].hex()[:24], t[1]) for t in r2['trace'][max(0, j - 2):j + burst2 + 2]]}
+                    if o[0] == 'exc' and not (o[1] in DOCUMENTED_EXC and o[:3] == base['obs'][:3]):
+                        ck.violation('unrelated-exception:%s@%s' % (o[1], o[3]), '%s (%s) reaches the application' % (o[1], o[2]), case)
+                    elif o[0] in ('raw', 'runaway'):
+                        ck.violation('%s:%s:%s' % (o[0], cid, scn.method), 'two bursts: %s' % (o,), case)
+                    elif o != base['obs'] or r2['memory'] != base['memory']:
+                        ck.violation('not-survived:%s:%s:two-bursts' % (cid, scn.method),
+                                     'two bursts of %d and %d %s errors in different commands, each within the budget of its '
+                                     'command, change the result' % (burst, burst2, S.KIND_NAME[kind]), case)
 
     # -------------------------------------------------------------- sweeps
     def positions(self, scn, base, quick):
@@ -704,7 +816,12 @@ def main():
         scn = by_name.get(c.get('scenario'))
         if scn is not None:
             base = sw.baseline(scn)
-            if c.get('plan'):
+            h = c.get('history', 0)
+            if c.get('plan2'):
+                sw.two_bursts(scn, base, False)
+            elif h:
+                sw.history_sweep(scn, base, False, depths=(h,))
+            elif c.get('plan'):
                 plan = tuple(c['plan'])
                 sw.check(scn, base, sw.budget_table(scn, base), plan, run(scn, plan))
         ck.finish(level='proof', rule='replay of one recorded injection')
@@ -718,6 +835,7 @@ def main():
             ck.case(('corpus', name, plan), True)
 
     only = os.environ.get('C16_ONLY')
+    longest = 0.0
     for scn in scns:
         if only and not scn.name.startswith(only):
             continue
@@ -728,6 +846,10 @@ def main():
         # RuntimeError("unexpected ...") is the pinned behaviour, anything else (UnboundLocalError ...) is reported
         if scn.ttype != 'tt4' and base['trace']:
             sw.sweep(scn, True if quick else False, kinds='O' if quick else 'OB', bursts=(1, 3), modes=('req',), base=base)
+        if base['trace'] and base['obs'][0] == 'val':
+            sw.history_sweep(scn, base, quick, depths=(1,) if quick else (1, 2, 3))
+            sw.two_bursts(scn, base, quick, step=1 if (scn.ttype == 'tt4' or not quick) else 3)
+        longest = max(longest, base.get('longest', 0.0))
     activation_cases(sw, quick)
 
     if not quick:
@@ -751,6 +873,7 @@ def main():
 
     sw.compare_models()
     ck.cov['strict_cases'] = sw.nstrict
+    ck.cov['longest_simulated_exchange_s'] = round(longest, 2)
     ck.cov['skeleton_left_out'] = 'see header of coq/Gen/TagSkel.v (LEFT OUT)'
     ck.finish(level='proof',
               rule='for each of the operation scenarios (read / write / NDEF read / NDEF write / is_present / format / protect / '
